@@ -8,7 +8,7 @@ from hypothesis import strategies as st
 
 from vf import zoo
 from vf.core import CaseResult, dtype_mode
-from vf.oracles import adaptive_quad_1d, norm_cdf, norm_logpdf, quad_1d
+from vf.oracles import adaptive_quad_1d, gl_panels, norm_cdf, norm_logpdf, quad_1d
 
 PROPERTY = "C03"
 RULE = ("Flows assembled from zoo transforms (compositions of depth 1-4: spline CDFs with/without tails via "
@@ -151,7 +151,7 @@ def run_case(case):
         def logp(z):
             zt = torch.tensor(np.asarray(z, dtype=np.float64).reshape(-1, D))
             evals[0] += len(zt)
-            if evals[0] > (3000000 if what == "mass2d" else 10 ** 7):
+            if evals[0] > (3000000 if what == "mass2d" else 3 * 10 ** 7):
                 raise _Budget()
             cc = c1.expand(len(zt), -1) if c1 is not None else None
             with torch.no_grad():
@@ -256,6 +256,27 @@ def run_case(case):
                     raise
                 if not np.isfinite(v) or e > 1e-5 or edge > 1e-9:
                     continue
+                if v < 1 - (5e-5 + 10 * e + clamp_allow) and clamp_allow == 0.0:
+                    # mass seems to be missing: before believing it, look for spikes narrower than every panel.  T is monotone, so
+                    # the base mass between two abscissae is known (aim only); panels whose quadrature falls short of it by more
+                    # than 1e-6 are bisected until the quadrature sees what is there.  A density that really is too small keeps
+                    # its deficit however the panels are cut, and the verdict below stays with the quadrature.
+                    try:
+                        xs = np.unique(np.concatenate([np.asarray(br_box, dtype=np.float64), np.linspace(lo, hi, 2001)]))
+                        xs = xs[(xs >= lo) & (xs <= hi)]
+                        for _ in range(45):
+                            q = gl_panels(f, xs, 15)
+                            du = np.abs(np.diff(base_cdf(xs)))
+                            short = ((du - q) > 1e-6) & (np.diff(xs) > 1e-13 * (1 + np.abs(xs[:-1])))
+                            if not short.any() or int(short.sum()) > 20000:
+                                break
+                            xs = np.unique(np.concatenate([xs, 0.5 * (xs[:-1][short] + xs[1:][short])]))
+                        v2, e2, _ = quad_1d(f, lo, hi, list(xs), tol=1e-8, max_evals=600000)
+                        res.labels.append("spike_hunt")
+                        if np.isfinite(v2) and e2 <= 1e-5:
+                            v, e = v2, e2
+                    except _Budget:
+                        continue
                 masses.append((v, e, lo, hi))
             if not masses:
                 res.inconclusive += 1
